@@ -2,6 +2,7 @@ use std::ops::{Deref, DerefMut};
 
 use celestia_proto::celestia::core::v1::proof::NmtProof as RawNmtProof;
 use celestia_proto::proof::pb::Proof as RawProof;
+use nmt_rs::simple_merkle::error::RangeProofError;
 use nmt_rs::simple_merkle::proof::Proof as NmtProof;
 use serde::{Deserialize, Serialize};
 use tendermint_proto::Protobuf;
@@ -10,6 +11,7 @@ use crate::nmt::{NS_SIZE, NamespacedHash, NamespacedHashExt, NamespacedSha2Hashe
 use crate::{Error, Result};
 
 type NmtNamespaceProof = nmt_rs::nmt_proof::NamespaceProof<NamespacedSha2Hasher, NS_SIZE>;
+type NamespaceId = nmt_rs::NamespaceId<NS_SIZE>;
 
 /// A helper constant to be used as leaves when verifying the [`NamespaceProof`] of absence.
 pub const EMPTY_LEAVES: &[&[u8]] = &[];
@@ -95,6 +97,89 @@ impl NamespaceProof {
             NmtNamespaceProof::AbsenceProof { ignore_max_ns, .. }
             | NmtNamespaceProof::PresenceProof { ignore_max_ns, .. } => *ignore_max_ns,
         }
+    }
+
+    /// Verify that the provided *raw* leaves are a complete namespace. This may be a proof
+    /// of presence or absence.
+    ///
+    /// Unlike the [`nmt_rs`] method of the same name, which this one wraps, it never
+    /// panics on malformed proofs.
+    pub fn verify_complete_namespace(
+        &self,
+        root: &NamespacedHash,
+        raw_leaves: &[impl AsRef<[u8]>],
+        namespace: NamespaceId,
+    ) -> Result<(), RangeProofError> {
+        let proven = match self.leaf() {
+            Some(leaf) => Some((leaf.min_namespace(), leaf.max_namespace())),
+            None if self.is_of_absence() => None,
+            None => Some((namespace, namespace)),
+        };
+        self.validate_nodes_order(proven)?;
+        self.0.verify_complete_namespace(root, raw_leaves, namespace)
+    }
+
+    /// Verify that the provided *raw* leaves are present and form a contiguous subset of
+    /// some namespace.
+    ///
+    /// Unlike the [`nmt_rs`] method of the same name, which this one wraps, it never
+    /// panics on malformed proofs.
+    pub fn verify_range(
+        &self,
+        root: &NamespacedHash,
+        raw_leaves: &[impl AsRef<[u8]>],
+        leaf_namespace: NamespaceId,
+    ) -> Result<(), RangeProofError> {
+        self.validate_nodes_order(Some((leaf_namespace, leaf_namespace)))?;
+        self.0.verify_range(root, raw_leaves, leaf_namespace)
+    }
+
+    /// Check that the nodes of the proof can be hashed together in the order implied by
+    /// the proven range.
+    ///
+    /// [`nmt_rs`] panics when it is asked to hash two nodes where the namespaces of the
+    /// left one aren't lower or equal to those of the right one, and it indexes into the
+    /// siblings assuming all the left ones are there. Proofs are received from the network,
+    /// so both must be an error instead. Nodes of a proof are kept in the in-order traversal
+    /// order, i.e. siblings on the left of the proven range, then the range, then siblings
+    /// on the right. In any valid tree, such sequence is sorted by namespace, and whenever
+    /// it is sorted, so is every pair of nodes hashed during verification.
+    ///
+    /// `proven` is the namespace range of the proven leaves, if there are any.
+    fn validate_nodes_order(
+        &self,
+        proven: Option<(NamespaceId, NamespaceId)>,
+    ) -> Result<(), RangeProofError> {
+        let siblings = self.siblings();
+        // leaf index has a bit set for each sibling which is on the left of it
+        let left_siblings = self.start_idx().count_ones() as usize;
+
+        if siblings.len() < left_siblings {
+            return Err(RangeProofError::MissingProofNode);
+        }
+        let (left, right) = siblings.split_at(left_siblings);
+
+        let nodes = left
+            .iter()
+            .map(|node| (node.min_namespace(), node.max_namespace()))
+            .chain(proven)
+            .chain(
+                right
+                    .iter()
+                    .map(|node| (node.min_namespace(), node.max_namespace())),
+            );
+
+        let mut prev_max = None;
+        for (min, max) in nodes {
+            if min > max || prev_max.is_some_and(|prev_max| prev_max > min) {
+                return Err(RangeProofError::MalformedProof(
+                    "proof nodes are not ordered by namespace",
+                ));
+            }
+            prev_max = Some(max);
+        }
+
+        Ok(())
     }
 
     /// Returns total amount of leaves in a tree for which proof was constructed.
